@@ -42,7 +42,16 @@ MANIFEST = dict(
         "part in an improving step: for the equality-constrained kind every feasible sum-preserving two-variable move involving "
         "it (any active partner, curvature >= 0) strictly decreases the dual objective (exact, second order); for the box kind "
         "every feasible move of it has strictly negative first-order effect and moving it alone strictly decreases the objective "
-        "(K_aa >= 0). (5) select_valid: whenever a selection criterion (MVP / LibSVM second order / maximum gain) reports a positive "
+        "(K_aa >= 0). shrink_final_sound: the same read off the FINAL state of shrink(eps), the form the harness oracle checks on the real "
+        "code: with m = size of the start set of the call (shrinkStart_size: all n variables exactly when the call un-shrinks "
+        "first -- m_isUnshrinked false and KKT gap of the active variables < 10 eps --, the active ones otherwise), every variable "
+        "of the start set carries its true gradient lin - K alpha, box and flags in the final state (the re-activated and the "
+        "removed ones too), and a removed variable has no feasible first-order ascending move: equality-constrained kind -- with "
+        "ANY other variable of the start set, still active or removed by the same call (PairNoAscent, strict); box kind -- on its "
+        "own (SingleNoAscent). shrink_unshrink_branch_witness: a reachable state with two shrunk variables, one of which has "
+        "become a KKT violator; shrink(1/1000) un-shrinks and, with the thresholds recomputed over all variables, removes "
+        "nothing, whereas the thresholds of the formerly active variables alone (seeded defect stale-active-count) remove a "
+        "variable that forms a feasible ascending pair with the violator. (5) select_valid: whenever a selection criterion (MVP / LibSVM second order / maximum gain) reports a positive "
         "violation the working set it returns is admissible for updateSMO (indices active; g_i >= g_j for MVP/LibSVM; MVP needs "
         "the gradients inside the sentinel range [-1e100,1e100]). (6) The solver's own runs: solveIter_inv_box / solve_inv_box -- "
         "for the box-constrained problem with maximum-gain selection and eps > 0 EVERY run of the model of QpSolver::solve (any "
@@ -54,7 +63,24 @@ MANIFEST = dict(
         "prefixes, with the real classes driven through QpSolver::solve (MVP / LibSVM / maximum-gain selection) and through "
         "adversarial op sequences (double/float entries, CachedMatrix with minimal and larger caches) under ASan/UBSan; an "
         "independent oracle re-derives lin - K*alpha and checks every clause of the property (incl. objective monotonicity, sum "
-        "preservation and soundness of shrinking) after every operation."),
+        "preservation and soundness of shrinking) after every operation -- after every updateSMO/shrink/unshrink the real "
+        "QpSolver::solve performs as well (the state before each such call is snapshotted inside the shadowing subclass). "
+        "Shrinking oracle (independent of the implementation's thresholds; own gradient of ALL variables in long double from "
+        "the oracle's copy of the data, exact in exact mode, 1e-9 relative otherwise): after EVERY real shrink(), for both "
+        "SvmShrinkingProblem and BoxConstrainedShrinkingProblem, no variable removed by this call (start set minus active "
+        "set; start set = all variables when the call un-shrank, detected through the m_isUnshrinked hook or the oracle's "
+        "own mirror of it) has a feasible ascending partner in the start set (box kind: ascends on its own). "
+        "Histories: besides uniformly random op sequences the generator builds, on every run and in both tiers, the "
+        "histories the shrinking clause needs -- noisy two-class / regression problems with bounded support vectors, "
+        "duplicated and leverage points (linear / polynomial / dyadic Gaussian kernel, cold and bound-heavy warm starts); "
+        "shrink with a tiny eps early, solver-selected (new op ssmo: real selection criterion + updateSMO, no schedule) and "
+        "arbitrary admissible steps on the reduced problem, then the ONE call whose internal un-shrink fires (directly and "
+        "from inside QpSolver::solve), re-shrinking, later calls with the flag set, dense shrinking schedules, and "
+        "constructively planted wrong guesses (movers / leverage victims / bystanders). The harness measures on the real "
+        "objects how often a shrink() un-shrank with a re-activated KKT violator such that the thresholds of the formerly "
+        "active variables alone would remove a different set (reached[...] in the evidence; typically 70-90 per quick run, "
+        "both kinds, 10-30 of them inside QpSolver::solve); the check reports a broken coverage obligation when this falls "
+        "below a floor (10 svm / 5 box / 3 in-solve)."),
   note=TRUST + "NOT proved, covered by the exact/bit-for-bit correspondence and the oracle only: solver runs with the MVP selection "
        "criterion (select_valid covers its direct selections, not its re-selection), runs of the equality-constrained solver "
        "whose gradients leave the sentinel range (-1e100,1e100); for the box kind a JOINT "
@@ -69,11 +95,13 @@ MANIFEST = dict(
   design="§6 C08")
 
 FINISH = dict(level="proof",
-              rule="problems: n in 1..12, K = X X^T (+ dyadic ridge, * 2^s) with small-integer X (PSD, often singular), "
-                   "C-SVM style and general boxes, cold and warm starts; op sequences mix real QpSolver::solve bursts "
-                   "(MVP / LibSVM / maximum-gain selection) with adversarial asmo/shrink/unshrink/aflip; analytic cases: "
-                   "random dyadic and tiny/degenerate 2-D problems. non-trivial = at least one state-changing step and "
-                   "one shrink or flip; distinct = distinct op text")
+              rule="problems: n in 1..12 (random family), 5..32 (shrink-history families), K = X X^T (+ dyadic ridge, * 2^s) with "
+                   "small-integer X (PSD, often singular), polynomial and dyadic Gaussian kernels, duplicated and leverage points, "
+                   "C-SVM style, regression style and general boxes, cold and warm starts; op sequences mix real QpSolver::solve "
+                   "bursts (MVP / LibSVM / maximum-gain selection) with solver-selected single steps (ssmo) and adversarial "
+                   "asmo/shrink/unshrink/aflip; families random / planted / history / converge / schedule (see gen_*_case); "
+                   "analytic cases: random dyadic and tiny/degenerate 2-D problems. non-trivial = at least one state-changing "
+                   "step and one shrink or flip; distinct = distinct op text")
 
 LAKE_TARGETS = ["SharkVerif.Props.C08", "drv_c08"]
 PID = "C08"
@@ -550,6 +578,67 @@ def correspond(ctx, name, cases, hcmd, dcmd, max_report=4):
     return len(failing)
 
 
+def oracle_alone(ctx, name, cases, hcmd):
+    """implementation + independent oracle only (operations the Lean model does not cover)"""
+    import subprocess, time
+    t = time.time()
+    env = dict(os.environ); env.setdefault("ASAN_OPTIONS", "detect_leaks=0:abort_on_error=0"); env.setdefault("UBSAN_OPTIONS", "print_stacktrace=1")
+    def run(ops):
+        p = subprocess.run(hcmd, input="\n".join(ops) + "\n", capture_output=True, text=True, errors="replace", env=env, timeout=1500)
+        r = Res(); r.impl = p.stdout.splitlines()
+        m = re.search(r"ERROR: AddressSanitizer: (\S+)|runtime error: ([^\n]*)", p.stderr)
+        fr = re.search(r"#\d+ \S+ in (?:\w+ )?shark::(\w+)::(\w+)", p.stderr[m.start():] if m else "")
+        # head of the sanitizer report (error kind + innermost shark frame) first: classify() reads it
+        r.stderr = ((m.group(0) + (f" in shark::{fr.group(1)}::{fr.group(2)}" if fr else "") + "\n") if m else "") + p.stderr[-3000:]
+        r.site = f"{fr.group(1)}::{fr.group(2)}" if fr else "?"
+        r.crash = p.returncode != 0; r.oracle = [l for l in r.impl if "!oracle" in l]
+        r.ok = not (r.crash or r.oracle or any(l == "bad-op" for l in r.impl)); r.kind = "crash" if r.crash else "oracle" if r.oracle else "bad-op"
+        return r
+    # one-variable problems run one process each (a sanitizer abort there must not end the batch: F-C08-HMG1)
+    single = [c for c in cases if c[0].split()[2] == "1"]
+    batch = [c for c in cases if c[0].split()[2] != "1"]
+    big = run([l for c in batch for l in c])
+    ctx.count("oracle_only_cases(hmg)", len(cases))
+    steps = sum(l.count("smo ") for l in big.impl)
+    ctx.count("oracle_only_solver_steps(hmg)", steps)
+    todo = sorted(single, key=len) + ([] if big.ok else sorted(batch, key=len))
+    seen = set()
+    for c in todo:
+        r = run(c)
+        if r.ok:
+            continue
+        def keyof(ops, rr):
+            # narrow key: kind of failure, innermost shark frame of a sanitizer report, problem size class
+            k = "hmg:" + classify(ops, rr)[0]
+            if rr.crash:
+                n = int(ops[0].split()[2]) if ops[0].startswith("new") else 0
+                k += f":{rr.site}:n={'1' if n == 1 else '>1'}"
+            return k
+        key, what = keyof(c, r), classify(c, r)[1]
+        if key in seen:
+            continue
+        seen.add(key)
+        def fails(ops):
+            rr = run(ops)
+            return (not rr.ok) and keyof(ops, rr) == key
+        small = core.shrink_ops(c, fails, keep_prefix=1, max_rounds=40) if len(c) > 2 else c
+        rs = run(small)
+        if rs.ok: small, rs = c, r
+        ctx.violation(key, {"harness_cmd": hcmd, "ops": small, "impl_output": [l[:3000] for l in rs.impl[-4:]],
+                            "oracle": [l[l.index("!oracle"):][:300] for l in rs.oracle[:5]], "crash": rs.crash,
+                            "stderr_tail": rs.stderr[-1500:], "oracle_only": True}, found_input=True, what="HMG selection: " + what)
+        if len(seen) >= 3:
+            break
+    if big.ok and not seen:
+        ctx.log(f"{name}: {len(cases)} cases / {steps} solver steps, oracle silent ({time.time()-t:.1f}s)")
+        return 0
+    if not seen:
+        ctx.violation("hmg:batch-only", {"harness_cmd": hcmd, "ops": [l for c in cases for l in c][:200]}, found_input=False,
+                      what="oracle failure only in the concatenated run")
+    ctx.log(f"{name}: {len(seen)} kinds of oracle failure")
+    return len(seen)
+
+
 # ----------------------------------------------------------------------------- check
 def translate(ctx):
     return ctx.translate("cxx2lean_analytic.py")
@@ -625,13 +714,26 @@ def run(ctx):
     ctx.cov["distinct_nontrivial"] = len({"\n".join(c) for c in cases if nontrivial(c)})
     ctx.sample({"ops": [o[:160] for o in cases[len(cases) // 2][:8]]})
     # corpus first
-    if corpus:
-        correspond(ctx, "K-C08[corpus]", corpus, [exe, "dd"], [drv])
+    modelled = [c for c in corpus if not any(" hmg " in o for o in c)]       # `solve hmg` is oracle-only (below)
+    if modelled:
+        correspond(ctx, "K-C08[corpus]", modelled, [exe, "dd"], [drv])
     correspond(ctx, "K-C08[analytic]", analytic, [exe, "dd"], [drv])
     variants = [("dd", "2"), ("cf", "2"), ("cd", "3"), ("df", "2")] if ctx.quick else \
                [("dd", "2"), ("df", "2"), ("cd", "2"), ("cd", "5"), ("cf", "2"), ("cf", "3"), ("cf", "16")]
     with ThreadPoolExecutor(max_workers=4) as ex:
         list(ex.map(lambda v: correspond(ctx, f"K-C08[{v[0]},cacheRows={v[1]}]", cases, [exe, v[0], v[1]], [drv]), variants))
+    # HMG working-set selection (stateful: the last working set survives the flips of shrink() until reset()) is not
+    # modelled: the same histories with `solve hmg`, implementation alone, every clause checked by the oracle after
+    # every step / shrink / unshrink of the real solver.  dd without shrinking and cd with a 2-row cache keep
+    # sqr(active) >= getMaxCacheSize(), i.e. the genuine HMG branch instead of its small-problem LibSVM fallback.
+    hmg = []
+    for c in cases:
+        if c[0].startswith("new svm") and any(o.startswith("solve") for o in c):
+            hmg.append([re.sub(r"^solve (mvp|libsvm) ", "solve hmg ", o) for o in c] +
+                       [f"solve hmg {tok(2.0 ** -10)} {300 if ctx.quick else 3000}"])
+    hmg = [c for c in corpus if any(" hmg " in o for o in c)] + hmg[:400 if ctx.quick else 4000]
+    for v in (("dd", "2"), ("cd", "2")):
+        oracle_alone(ctx, f"K-C08[hmg,{v[0]},cacheRows={v[1]}]", hmg, [exe, v[0], v[1]])
     # the histories the shrinking clause quantifies over must have been reached on the REAL objects (measured by the
     # harness): shrink() calls whose internal un-shrink re-activated a KKT violator such that the thresholds of the
     # formerly active variables alone would have removed a different set of variables -- both problem kinds, called
@@ -648,6 +750,13 @@ def replay(ctx, rep):
     translate(ctx)
     exe = build(ctx); drv = ctx.driver("drv_c08")
     cmd = list(rep.get("harness_cmd", [exe, "dd"])); cmd[0] = exe
+    if rep.get("oracle_only"):
+        import subprocess
+        p = subprocess.run(cmd, input="\n".join(rep["ops"]) + "\n", capture_output=True, text=True, errors="replace")
+        bad = [l[l.index("!oracle"):][:200] for l in p.stdout.splitlines() if "!oracle" in l]
+        print("\n".join(l[:1500] for l in p.stdout.splitlines()[-4:])); print("stderr:", p.stderr[-2000:])
+        print("OK" if not bad and p.returncode == 0 else f"FAILS (oracle: {bad[:3]}, rc={p.returncode})")
+        return 0 if not bad and p.returncode == 0 else 1
     res = run_case(ctx, cmd, [drv], rep["ops"])
     for a, b in zip(res.impl, res.model):
         print("impl :", a[:1500]); print("model:", b[:1500])
